@@ -44,7 +44,10 @@ func TestVerif_C01(t *testing.T) {
 		run(b, c01Worlds[0], c01Gas, "degenerate")
 	}
 	c01SingleSweep(r, &idx, run)
-	c01ProgSweep(r, vlib.Pick(r, 3, 4), &idx, run)
+	c01ProgSweep(r, 3, &idx, run)
+	if r.Thorough() {
+		c01ProgSweep4(r, c01Sub4, &idx, run)
+	}
 }
 
 // c01DegenerateBlobs: the header corner cases of "for every program blob":
